@@ -125,6 +125,8 @@ impl Runtime {
             self.program.clear();
             self.program.codegen(self.listing.lines());
             self.dirty = false;
+            // User functions hold addresses into the previous compile.
+            self.functions.clear();
         }
         self.program.codegen(&line);
         let (pc, indirect_errors, direct_errors) = self.program.link();
